@@ -507,6 +507,45 @@ def explore_mtime(ctx, rng, stats, violations, disagreements):
 # neighbouring stores: interleaved writes to DIFFERENT stores of one directory must not disturb each other
 # ------------------------------------------------------------------------------------------------------------------
 
+def explore_relative(ctx, rng, stats, violations, only=None):
+    """Paths as users often give them: a bare file name (no directory part), a name in a sub-directory, str and pathlib -
+    relative to the current directory.  Every bundled file store must round-trip and report a modified time."""
+    import pathlib
+    samples = {"TextFileStore": "a\r\nb", "BinaryFileStore": b"\x00\xff", "JsonFileStore": {"k": [1, None]},
+               "PickleFileStore": ("t", 1), "TouchFileStore": None}
+    for cls_name, value in samples.items():
+        for rel in ("value.dat", os.path.join("sub", "value.dat")):
+            for use_pathlib in (False, True):
+                if only and [cls_name, rel, use_pathlib] != list(only):
+                    continue
+                with sc.scratch_dir("c12") as d:
+                    os.makedirs(os.path.join(d, "sub"))
+                    old = os.getcwd()
+                    os.chdir(d)
+                    try:
+                        st = sc.make_store(cls_name, rel, "utf-8", pathlib_path=use_pathlib)
+                        what = None
+                        try:
+                            if st.get_modified_time() is not None:
+                                what = "get_modified_time is not None although nothing is stored"
+                            st.write(value)
+                            got = st.read()
+                            if what is None and (got != value or type(got) is not type(value)):
+                                what = f"read after write returned {got!r} for {value!r}"
+                            if what is None and st.get_modified_time() is None:
+                                what = "get_modified_time is None after a write"
+                        except Exception as e:          # noqa: BLE001
+                            what = f"{type(e).__name__}: {e}"
+                    finally:
+                        os.chdir(old)
+                stats["relative_paths"] = stats.get("relative_paths", 0) + 1
+                if what:
+                    violations.append({"property": "C12", "what": f"{cls_name} with the relative path {rel!r} "
+                                       f"({'pathlib' if use_pathlib else 'str'}): {what}",
+                                       "witness_case": {"kind": "relative", "case": [cls_name, rel, use_pathlib]}})
+                    return
+
+
 def explore_neighbours(ctx, rng, stats, violations):
     """Two stores in one directory whose paths share a stem (data.pkl / data.bin / data), str and pathlib paths; the
     write of the second store happens while the first store's staged write is open (as on the thread pool).  Afterwards
@@ -639,6 +678,8 @@ def explore(ctx, seed_shift=0):
             explore_mtime(ctx, rng, stats, violations, disagreements)
         if not violations:
             explore_neighbours(ctx, rng, stats, violations)
+        if not violations:
+            explore_relative(ctx, rng, stats, violations)
     finally:
         sc.cleanup_scratch()
     classes = sorted(stats.pop("classes"))
@@ -729,6 +770,10 @@ def replay(ctx, payload):
         if w.get("kind") == "mtime":
             found, _, _ = run_mtime(w)
             return "; ".join(found) if found else None
+        if w.get("kind") == "relative":
+            vv, st2 = [], {}
+            explore_relative(ctx, None, st2, vv, only=w["case"])
+            return vv[0]["what"] if vv else None
         if w.get("kind") == "neighbours":
             import pathlib
             from uberjob.stores import staged_write
